@@ -1,6 +1,6 @@
 """C14 - sorting is a stable permutation with direction-independent None placement."""
 import itertools
-from datetime import date
+from datetime import date, datetime
 
 from ..bind import Vector, Table
 from ..core import call, short
@@ -271,6 +271,12 @@ def run_sort_history(chk, spec):
 		ids = cols[2]
 		if not check_sorted(chk, "table-sort/after-writes", spec, J.rows_from(cols, n), keycols, list(ids), J.rows_from(oc, len(oc[0]) if oc else 0), 2, [rev] * len(by), na_last):
 			return
+		if spec.get("failing_sort") and rnd == 0:
+			# a sort request that is rejected while it is being carried out (keys of kinds that have no order): nothing of it may remain
+			bad = Table([Vector([rng.choice(["x", 7, "y", 3]) for _ in range(n)], name="bad"), Vector([rng.choice([2, 1]) for _ in range(n)], name="tie"), Vector(list(range(n)), name="__id")])
+			if len({type(x) for x in bad.cols()[0]._underlying}) > 1:
+				call(lambda: bad.sort_by(["bad", "tie"]))
+				call(lambda: bad.sort_by(["tie", "bad"]))
 		for _ in range(writes):
 			i = rng.randrange(n)
 			val = rng.choice(dom)
@@ -302,6 +308,9 @@ SORT_DOMAINS = {
 	"decimal": [_Dec("1.0000000000000000000000000000001"), _Dec("1.0000000000000000000000000000002"), _Dec("1"), _Dec("-2.5"), _Dec("1.0000000000000000000000000000001")],      # differ beyond 28 significant digits
 	"fraction": [_Frac(1, 3), _Frac(2, 6), _Frac(10 ** 30 + 1, 10 ** 30), _Frac(1), _Frac(-1, 7)],
 	"bigint": [2 ** 53, 2 ** 53 + 1, 10 ** 400, -(10 ** 400), 2 ** 53 + 2],
+	"int-fraction": [1, _Frac(1, 2), 2, _Frac(5, 2), 0, _Frac(3, 1)],      # an object-typed column whose values nevertheless have one order
+	"int-decimal": [1, _Dec("0.5"), 3, _Dec("2.5"), 2],
+	"datetime-sameday": [datetime(2020, 1, 31, 17, 30), datetime(2020, 1, 31, 5, 0), datetime(2020, 1, 31, 0, 0), datetime(2020, 1, 30, 23, 59), datetime(2020, 1, 31, 5, 0, 1)],
 }
 
 
@@ -310,7 +319,7 @@ def gen_sort_spec(rng, max_rows=8):
 	nkeys = rng.choice([1, 1, 2, 2, 3])
 	names, cols, by = [], [], []
 	for i in range(nkeys):
-		kind = rng.choice(["int", "str", "float", "bool", "date", "int", "mixed", "floatinf", "decimal", "fraction", "bigint"])
+		kind = rng.choice(["int", "str", "float", "bool", "date", "int", "mixed", "floatinf", "decimal", "fraction", "bigint", "int-fraction", "int-decimal", "datetime-sameday"])
 		dom = SORT_DOMAINS[kind][:rng.choice([1, 2, 3, 7])]
 		p_none = rng.choice([0.0, 0.0, 0.2, 0.5])
 		kc = [None if rng.random() < p_none else rng.choice(dom) for _ in range(n)]
@@ -379,7 +388,7 @@ def run(chk):
 		dom = rng.choice([[1, 2, 3, 4, 5, None], ["a", "b", "c", "d"], [0.5, 1.5, -2.0, 3.25, None], [5, 4, 3, 2, 1]])
 		by = rng.choice([["k"], ["k"], ["g", "k"]])
 		chk.case("sort_history", {"seed": rng.randrange(10**9), "n": rng.choice([3, 4, 6, 9]), "dom": dom, "by": by, "reverse": rng.random() < 0.4, "na_last": rng.random() < 0.6,
-			"key_form": rng.choice(["name", "vector"]), "writes": [rng.choice([1, 2, 2, 3, 4]) for _ in range(rng.choice([2, 3, 4]))]}, "sort-history")
+			"key_form": rng.choice(["name", "vector"]), "writes": [rng.choice([0, 1, 2, 2, 3, 4]) for _ in range(rng.choice([2, 3, 4]))], "failing_sort": rng.random() < 0.5}, "sort-history")
 	for _ in range(800 if chk.quick() else 5000):
 		chk.case("table_sort", gen_sort_spec(rng, max_rows=rng.choice([6, 12]) if chk.quick() else rng.choice([6, 12, 60, 300])), "table-sort-sampled")
 	for _ in range(500 if chk.quick() else 3000):
